@@ -11,8 +11,8 @@ Triggers of recorded defects are avoided (README: Known defects):
   D38  changing the parameter formula of a space deletes only the ItemSpaces whose *parent* is that space.
        Trigger (decidable on the case): setparams on a space that is a child space or is named as 'base' by any
        parameter formula seen so far.
-  D39  deleting a space without child spaces does not delete the ItemSpaces that other spaces built from it.
-       Trigger: delspace q where a space in the tree of q is named as 'base' by any parameter formula seen so far.
+  (D39 — deleting a space did not delete the ItemSpaces other spaces built from it — is repaired in /repo, 2a94503:
+  such deletions are generated with live instances around.)
   Before such an edit the generator deletes every ItemSpace (clear_items on every parametrised space), so that the
   edit meets no live instance (counted: distribution.precautions; env C07_NO_PRECAUTION=1 disables this, for
   trying a repaired tree).
@@ -524,8 +524,8 @@ class Gen:
         nd = rng.choice(self.defs)
         p = nd["path"]
         paths = [n["path"] for n in self.defs]
-        if ((kind == "setparams" and self.risky(p)) or (kind == "delspace" and self.base_under(p))) \
-                and rng.random() < 0.65:      # mostly steer away from the D38 / D39 triggers
+        if (kind == "setparams" and self.risky(p)) \
+                and rng.random() < 0.65:      # mostly steer away from the D38 trigger
             safe = [n for n in self.defs if not self.risky(n["path"])]
             if safe and kind != "delspace" and rng.random() < 0.6:
                 nd = rng.choice(safe); p = nd["path"]
@@ -608,9 +608,9 @@ class Gen:
             if node_of(self.defs, par["s"]) is None:
                 return False
             op = {"op": "delitem", "p": par["s"], "key": vals}
-        # precaution before the edits the tree does not propagate (module doc): D38 and D39 only
+        # precaution before the edit the tree does not propagate (module doc): D38 only
         k = op["op"]
-        if (k == "setparams" and self.risky(p)) or (k == "delspace" and self.base_under(op["q"])):
+        if k == "setparams" and self.risky(p):
             self.precaution()
         self.emit(op)
         self.apply(op)
